@@ -411,7 +411,7 @@ def _revocation_complete(ctx, func, graph, node, var, nz):
            construct='revocation pass skips an instance')
 
 
-def _model_removal(ctx):
+def _model_removal(ctx, removal_rule='C05.2'):
     """An instance leaves the cell's table only after its identity went
     back to the pool - placed or not."""
     cell = ctx.index.get_class(K.SCHED, 'Cell')
@@ -459,6 +459,36 @@ def _model_removal(ctx):
                    'identity was released on every path (an unplaced '
                    'instance may still hold one until the next cycle)',
                    construct='release before ' + site[0].text(40))
+            # ... and only after it was taken off the server it is on, if
+            # that server is a member of the cell (whatever the server's
+            # state): otherwise the server keeps counting it - capacity and
+            # affinity counters - with nobody left to remove it
+            nzr = N.Normaliser()
+
+            def off_server(edge):
+                for call in C.node_calls(edge.src):
+                    if K.is_meth(call, 'remove') and call.args and \
+                            N.txt(call.args[0]).endswith('.name'):
+                        return edge.kind != 'exc'
+                for atom in nzr.facts_of_edge(edge):
+                    akey = atom.key
+                    if akey[0] == 'in' and not akey[3] and \
+                            akey[1].endswith('.server'):
+                        return True         # app.server not in <members>
+                    if akey[0] == 'is' and akey[3] and akey[2] == 'None' \
+                            and not akey[1].endswith('.allocation'):
+                        # <members>.get(app.server) is None
+                        src_defs = env.get(akey[1])
+                        if src_defs is not None and '.get(' in N.txt(
+                                src_defs) and '.server' in N.txt(src_defs):
+                            return True
+                return False
+            ok2 = K.guarded_by(graph, site[0], off_server)
+            ctx.ob(removal_rule, func, site[0], ok2,
+                   'the instance is dropped from the cell only after it was '
+                   'taken off its server (unless that server is not a '
+                   'member of the cell)',
+                   construct='off the server before ' + site[0].text(40))
     ctx.require(count >= 1, 'removal of an instance from Cell.apps',
         rule='C05.2')
 
@@ -665,6 +695,49 @@ def _group_removal(ctx):
                'registry deletion only on the not-in-use outcome')
 
 
+def identity_presence_tests(ctx, rule='C05.2'):
+    """Identity 0 is an identity: whether an instance holds one is decided
+    by identity `is None` / `is not None`, never by its truth value (a
+    release or a revocation that skips "falsy" identities leaks identity 0
+    of every group)."""
+    index = ctx.index
+    nz = N.Normaliser()
+    judged = 0
+    for mod in (index.module(K.SCHED), index.module(K.LOADER),
+                index.module(K.MASTER)):
+        for func in mod.live_functions():
+            graph = None
+            for sub in K.walk_no_nested(func.node):
+                if not (isinstance(sub, ast.Attribute) and
+                        sub.attr == 'identity'):
+                    continue
+                graph = graph or ctx.cfg(func)
+                break
+            if graph is None:
+                continue
+            for test in [n for n in graph.nodes if n.kind == 'test' and
+                         n.ast is not None]:
+                expr = K.test_expr(func, test) or test.ast
+                try:
+                    key = nz.atom(expr).key
+                except Exception:           # pylint: disable=broad-except
+                    continue
+                if key[0] == 'truth' and key[1].endswith('.identity'):
+                    judged += 1
+                    ctx.fail(rule, func, test,
+                             '%s decides on the truth value of an identity: '
+                             'identity 0 is taken for "none"' % func.qualname,
+                             construct='identity presence test')
+                elif key[0] == 'is' and key[2] == 'None' and \
+                        key[1].endswith('.identity'):
+                    judged += 1
+                    ctx.ok(rule, func, test,
+                           'identity presence tested by identity with None',
+                           construct='identity presence test')
+    ctx.require(judged >= 3, 'presence tests of Application.identity (found '
+                '%d)' % judged, rule=rule)
+
+
 def _group_sync(ctx):
     """C05.6: the loader drops from the model every identity group the store
     no longer lists (a group deleted and re-created must not find the old
@@ -750,6 +823,7 @@ def check(ctx):
     acquire_owner(ctx, 'C05.1')
     _group_removal(ctx)
     _group_sync(ctx)
+    identity_presence_tests(ctx)
     _removal_pairing(ctx)
     _model_removal(ctx)
     _range_maintenance(ctx)
